@@ -45,7 +45,7 @@ func main() {
 		"non-trivial = an accepted or panicking (uplink DR, offset) cell, a valid uplink channel, a ping-slot or defaults query; "+
 			"rejected (error) cells and out-of-range channel indices are the trivial ones; distinct = distinct printed case")
 	s.ShardSize = 1500
-	cfgs := bandcfg.All()
+	cfgs := bandcfg.AllWithAliases() // 56 common configurations + 40 through the deprecated names
 
 	// construction-order independence (order.go) - first, before anything else configures a band
 	orderIndependence(s)
@@ -105,12 +105,19 @@ func main() {
 		// RX1 data-rate: every DR -2..16 x offset -2..9 (exhaustive in both tiers)
 		for dr := -2; dr <= 16; dr++ {
 			for off := -2; off <= 9; off++ {
+				if c.Alias && !thorough && (dr < 0 || dr > 8 || off < 0 || off > 7) {
+					// objects obtained through a deprecated name: DR 0..8 x offset 0..7 in the quick tier
+					// (their tables are proved equal to those of the common name)
+					continue
+				}
 				addCell(c, b, dr, off, "rx1dr")
 			}
 		}
 		// far-out arguments (model correspondence of the range checks)
 		for _, p := range [][2]int{{0, 1 << 40}, {0, -(1 << 40)}, {1 << 40, 0}, {-(1 << 40), 0}, {5, 255}, {255, 5}} {
-			addCell(c, b, p[0], p[1], "rx1dr-far")
+			if !c.Alias || thorough {
+				addCell(c, b, p[0], p[1], "rx1dr-far")
+			}
 		}
 
 		// RX1 channel index / frequency for every channel index -2..n+2
@@ -159,6 +166,9 @@ func main() {
 		}
 		for i, da := range das {
 			for j, bt := range bts {
+				if c.Alias && !thorough && (i+j)%7 != 0 {
+					continue
+				}
 				if thorough || (i+j)%3 == 0 || i < 2 && j < 4 {
 					add(da, bt, "ping-slot")
 				}
@@ -172,7 +182,10 @@ func main() {
 			ks := []int64{1, 1000, 1<<17 - 1, 1 << 17, 1<<17 + 1, 1 << 20, 1<<23 - 1, 1 << 23, 9404518, 10156250, 11275970, 1<<24 - 1, 1 << 24, 1<<24 + 1, 1 << 25, 72057593, 72057594}
 			deltas := []time.Duration{-time.Second, -time.Millisecond, -time.Microsecond, -200, -119, -100, -2, -1, 0, 1, time.Second}
 			hopping := c.Name == band.US915 || c.Name == band.AU915 || c.Name == band.CN470
-			if !hopping {
+			if c.Alias && (c.Name == band.US_902_928 || c.Name == band.AU_915_928 || c.Name == band.CN_470_510) {
+				ks = []int64{1 << 17, 9404518, 1 << 24, 72057594}
+				deltas = []time.Duration{-time.Second, -100, -1, 0, 1}
+			} else if !hopping {
 				ks = []int64{9404518, 72057594}
 				deltas = []time.Duration{-1, 0}
 			}
@@ -202,12 +215,14 @@ func main() {
 			Replay: map[string]interface{}{"api": "GetDefaults()", "name": string(c.Name), "rx2_frequency": d.RX2Frequency, "rx2_dr": d.RX2DataRate}})
 	}
 	// band objects after AddChannel histories (history.go)
-	rx1Histories(s, r, thorough, cfgs)
+	rx1Histories(s, r, thorough, bandcfg.All())
+	rx1LongHistories(s, thorough, bandcfg.All())
+	getConfigNames(s)
 
-	s.Exhaustive("RX1 data-rate: 56 configurations x uplink DR -2..16 x RX1 offset -2..9")
-	s.Exhaustive("GetDefaults: 56 configurations")
+	s.Exhaustive("RX1 data-rate: 56 configurations x uplink DR -2..16 x RX1 offset -2..9; the 40 objects obtained through the 10 deprecated names: DR 0..8 x offset 0..7 (all cells in the thorough tier)")
+	s.Exhaustive("GetDefaults, Name: 96 objects = (14 common + 10 deprecated names) x repeater x dwell time")
 	s.Exhaustive("ping-slot period boundaries (US915, AU915, CN470): 17 period numbers k from 1 to the largest a Duration holds x 11 offsets (-1 s .. -1 ns, 0, +1 ns, +1 s) around k*128 s x 2 DevAddrs")
-	s.Exhaustive("RX1 channel: 56 configurations x every channel index -2..n+2 and every uplink frequency")
+	s.Exhaustive("RX1 channel: 96 objects x every channel index -2..n+2 and every uplink frequency")
 	if err := s.Finish(); err != nil {
 		fmt.Fprintln(os.Stderr, err)
 		os.Exit(2)
